@@ -455,7 +455,10 @@ def run(tier, replay=None):
     chk.notes["pairs_collinear"] = stats.skipped_collinear
     chk.notes["pairs_not_collinear_but_abs_cos_ge_0.98"] = stats.skipped_near
     chk.notes["cells_replayed"] = sorted(rcs)
-    if stats.calls < 1000 or stats.multi < 10 or stats.crossblock < 10 or stats.dedup < 10:
+    nprop = len([v for v in viol if v[3] == "property"])
+    # (the counters only cover ring pairs whose kept list the model explains: with violations pending the
+    #  violations are the result, not a vacuity complaint)
+    if nprop == 0 and (stats.calls < 1000 or stats.multi < 10 or stats.crossblock < 10 or stats.dedup < 10):
         raise common.MachineryError("vacuity: %d orient calls, %d multi-class, %d cross-block, %d merging lookups"
                                     % (stats.calls, stats.multi, stats.crossblock, stats.dedup))
     hists = tlc_cache(chk)
